@@ -286,6 +286,34 @@ PRIMED = [
 ]
 
 
+def _prelude_other_context(fol, formula, with_ops):
+    """The same formula text is first translated in an UNRELATED context (real
+    manager) that declares the same identifiers with other types / ranges: no
+    translation state may carry over to the context under verification."""
+    import omega.symbolic.fol as _fol
+    import omega.symbolic.temporal as _trl
+    other = _trl.Automaton() if isinstance(fol, _trl.Automaton) else _fol.Context()
+    decl = dict()
+    for k, d in fol.vars.items():
+        if k.endswith("'"):
+            continue
+        if d['type'] == 'bool':
+            decl[k] = 'bool'
+        else:
+            lo, hi = d['dom']
+            decl[k] = (0, 1) if lo < 0 else (-(hi + 9), 3)
+    try:
+        if isinstance(other, _trl.Automaton):
+            other.declare_variables(**decl)
+        else:
+            other.declare(**decl)
+        if with_ops:
+            other.define(with_ops)
+        other.add_expr(formula, with_ops=bool(with_ops))
+    except Exception:
+        pass      # the other context may legitimately refuse the formula
+
+
 def h_formula(formula, with_ops=None, node_refs=None, primed=False):
     """One end-to-end obligation through the real pipeline (for all values)."""
     def h(ctx):
@@ -305,6 +333,8 @@ def h_formula(formula, with_ops=None, node_refs=None, primed=False):
                 den0 = denote.Den(fol.vars, w.z)
                 nodes[int(u)] = den0.formula(sub)
                 f = f.replace(key, str(u))
+        if w.symbolic and not node_refs:
+            _prelude_other_context(fol, formula, with_ops)
         add = ctx.fn(type(fol).add_expr)
         try:
             u = add(fol, f, with_ops=bool(with_ops))
